@@ -16,6 +16,12 @@ open Pandora Pandora.Pipeline Pandora.Refinement
 /-- the decidable hypothesis evaluated by the driver is C06's `pixHyp` -/
 theorem refineReadyPix_eq (P : Params) (x : PixIn) : refineReadyPix P x = C06.pixHyp P x := rfl
 
+/-- the per-pixel diagnosis the driver reports is empty exactly when the hypothesis holds -/
+theorem refineReadyFailures_nil (P : Params) (x : PixIn) : refineReadyFailures P x = [] ↔ refineReadyPix P x = true := by
+  unfold refineReadyFailures refineReadyPix
+  cases wfPixB P x <;> cases onGridPixB P x <;> cases (P.variant.fixOr || bitAt x.flag 3 == 0) <;> simp
+  all_goals (split <;> split <;> simp)
+
 /-! ### flag words: everything but bit 3 -/
 
 theorem sameExceptBit3_testBit {f g : Nat} (h : sameExceptBit3 f g = true) (k : Nat) (hk : k ≠ 3) :
